@@ -177,6 +177,37 @@ def run(tier: str, seed: int) -> int:
                                             if rows_of(pr._partition_bounds[col2]) != want2:
                                                 chk.violation(f"prune-othercol|{writer}", f"after bounds={B} the reported bounds of column {col2} are not those of the kept "
                                                               f"partitions {kept}; {info}", "", ctx=dict(site="read_parquet_dask.bounds", mode="reported"))
+            # coordinates that need all 17 significant digits (thirds, sevenths): what is recorded must be the extents bit for bit, and a box
+            # that touches a partition's extreme coordinate exactly must keep that partition (float comparison, outside the integer model)
+            for writer in ("to_parquet", "pack"):
+                n = 18
+                xs = [(7 * i % 19) / 3.0 + 0.1 for i in range(n)]
+                ys = [(5 * i % 17) / 7.0 - 0.3 for i in range(n)]
+                fdf = sp.GeoDataFrame({"id": np.arange(n), "geometry": geom.PointArray([[x, y] for x, y in zip(xs, ys)])})
+                path = os.path.join(tmp, f"frac_{writer}.parq")
+                fddf = dd.from_pandas(fdf, npartitions=3)
+                if writer == "to_parquet":
+                    fddf.to_parquet(path)
+                else:
+                    fddf.pack_partitions_to_parquet(path, npartitions=3, p=10)
+                back = read_parquet_dask(path)
+                rec_tb = back._partition_bounds["geometry"]
+                chk.count()
+                for k in range(back.npartitions):
+                    part = back.get_partition(k).compute()
+                    true = [float(v) for v in part.geometry.array.total_bounds]
+                    got = [float(rec_tb[c].iloc[k]) for c in ("x0", "y0", "x1", "y1")]
+                    if got != true:
+                        chk.violation(f"frac-bounds|{writer}", f"{writer}: recorded bounds of partition {k} {got} are not the extents of the rows stored {true} (coordinates k/3 + 0.1, k/7 - 0.3)",
+                                      "", ctx=dict(site="_partition_bounds", writer=writer, mode="precision"))
+                        break
+                    for box in ((true[0], true[1], true[0], true[3]), (true[2], true[1], true[2] + 1.0, true[3])):       # touching the extreme x exactly
+                        kept = set(int(i) for i in read_parquet_dask(path, bounds=box).compute()["id"])
+                        hit = set(int(i) for i, h in zip(part["id"], part.geometry.array.intersects_bounds(box)) if h)
+                        if not hit <= kept:
+                            chk.violation(f"frac-prune|{writer}", f"{writer}: bounds={box} (touching partition {k}'s extreme x) lost rows {sorted(hit - kept)}", "",
+                                          ctx=dict(site="read_parquet_dask.bounds", writer=writer, mode="precision"))
+                            break
     finally:
         shutil.rmtree(tmp, ignore_errors=True)
     verdicts, tres = validate_trace("Trace_ParquetDS", recs, timeout=3000)
